@@ -163,6 +163,57 @@ Theorem c07_history_skipable : forall W e json (h : list top) i,
 Proof. exact json_history_skipable. Qed.
 Print Assumptions c07_history_skipable.
 
+(* ---- what the render histories of the correspondence check exercise (Proofs/JsonMore.v) *)
+From Tab Require Import Proofs.JsonMore.
+
+(* An item that has no JSON encoding (json.Marshal refuses it: a non-finite
+   float, a refusing MarshalJSON, ...) in a cell that is not omitted makes the
+   whole render an error, and Render() returns no text - whatever else the
+   table holds and wherever the cell stands. *)
+Theorem c07_unencodable_item_is_error : forall strenc v cells i c,
+  wf_view v -> In (Some cells) (v_rows v) -> nth_error cells i = Some c ->
+  vc_json c = None -> (eff_skip v i && vc_empty c) = false ->
+  json_render strenc v = Err /\ json_render_string strenc v = [].
+Proof. exact json_unencodable_item_is_error. Qed.
+Print Assumptions c07_unencodable_item_is_error.
+
+(* One object per non-separator row, position by position. *)
+Theorem c07_one_object_per_row : forall kv cv v,
+  exists objs, json_expected kv cv v = JArr objs
+    /\ length objs = length (body_rows v)
+    /\ forall k cells, nth_error (body_rows v) k = Some cells ->
+                       nth_error objs k = Some (row_object kv cv v cells).
+Proof. exact json_one_object_per_row. Qed.
+Print Assumptions c07_one_object_per_row.
+
+(* A row without cells (however it was made: it is not a separator) is the
+   empty object, and it counts: inserting one anywhere adds one object. *)
+Theorem c07_cellless_row_is_empty_object : forall kv cv v, row_object kv cv v [] = JObj [].
+Proof. exact json_cellless_row_is_empty_object. Qed.
+Print Assumptions c07_cellless_row_is_empty_object.
+
+Theorem c07_cellless_row_counts : forall (n : nat) h ra rb al sk,
+  length (body_rows (mkView n h (ra ++ Some [] :: rb) al sk))
+  = S (length (body_rows (mkView n h (ra ++ rb) al sk))).
+Proof. exact json_cellless_row_counts. Qed.
+Print Assumptions c07_cellless_row_counts.
+
+(* What a successful render parses to has as many elements as the table has
+   non-separator rows. *)
+Theorem c07_object_count : forall strenc strval encval v out,
+  wf_view v -> encodings_ok strenc strval encval v -> json_render strenc v = Ok out ->
+  exists objs, parse_json out = Some (JArr objs) /\ length objs = length (body_rows v).
+Proof. exact json_object_count. Qed.
+Print Assumptions c07_object_count.
+
+(* A history of renders is judged render by render: the answer for a view is
+   the render of that view alone, whatever was rendered before or after. *)
+Theorem c07_history_is_pointwise : forall strenc before v after,
+  nth_error (json_render_history strenc (before ++ v :: after)) (length before)
+  = Some (json_render strenc v).
+Proof. exact json_history_is_pointwise. Qed.
+Print Assumptions c07_history_is_pointwise.
+
 (* non-vacuity: keys a, b; column b skipable; a leading, a double and a
    trailing separator; a zero-cell row; an item encoding as {} with text t; the
    encodings of this table satisfy the assumption *)
